@@ -142,6 +142,19 @@ class Opaque:
         return "<%s>" % self.what
 
 
+class ElemRef:
+    """`&mut` to a scalar element of a list (`last_mut()`, `first_mut()`): reads and writes go to the list"""
+
+    def __init__(self, lst, idx):
+        self.lst, self.idx = lst, idx
+
+    def get(self):
+        return self.lst[self.idx]
+
+    def __repr__(self):
+        return "&mut %r" % (self.get(),)
+
+
 class Closure:
     def __init__(self, node, env):
         self.node, self.env = node, env
@@ -313,7 +326,8 @@ class Interp:
             return v
         if k == "Un":
             if n["op"] == "*":
-                return self.ev(n["e"], env)
+                v = self.ev(n["e"], env)
+                return v.get() if isinstance(v, ElemRef) else v
             v = self.ev(n["e"], env)
             if n["op"] == "!" and isinstance(v, bool):
                 return not v
@@ -444,6 +458,8 @@ class Interp:
                     return ()
             if l["k"] == "Field":
                 base = self.ev(l["e"], env)
+                if isinstance(base, LazySelf) and l["name"] not in base:
+                    base[l["name"]] = default_of_type(l.get("ty"), render(l))
                 if isinstance(base, dict) and l["name"] in base:
                     a, b = base[l["name"]], self.ev(n["r"], env)
                     if isinstance(a, (int, float, str)) and isinstance(b, (int, float, str)) and n["op"] in ("+=", "-=", "*="):
@@ -481,6 +497,10 @@ class Interp:
                 while tgt["k"] in ("Ref",) or (tgt["k"] == "Un" and tgt["op"] == "*"):
                     tgt = tgt["e"]
                 if tgt["k"] == "Path" and tgt.get("rk") == "Local":
+                    cur = env.get(tgt["res"]) if tgt["res"] in env else None
+                    if isinstance(cur, ElemRef):
+                        cur.lst[cur.idx] = self.ev(n["r"], env)
+                        return ()
                     env[tgt["res"]] = self.ev(n["r"], env)
                     return ()
             raise Undecided("assignment to %s" % render(l))
@@ -1078,6 +1098,8 @@ class Interp:
             return ()
         if isinstance(recv, list) and not n["args"] and m == "pop":
             return some(recv.pop()) if recv else NONE
+        if isinstance(recv, list) and not n["args"] and m in ("first_mut", "last_mut") and recv and isinstance(recv[0 if m == "first_mut" else -1], (bool, int, float, str)):
+            return some(ElemRef(recv, 0 if m == "first_mut" else len(recv) - 1))
         if isinstance(recv, list) and not n["args"] and m in ("first", "last", "first_mut", "last_mut"):
             return (some(recv[0] if m.startswith("first") else recv[-1])) if recv else NONE
         if isinstance(recv, list) and not n["args"] and m in ("first", "last"):
